@@ -52,7 +52,7 @@ def _gen_readov(rng):
             hit.append(i)
         lines.append([f.replace("\t", " ").replace("\n", " ").replace("\r", " ") for f in fields])
     return {"kind": "readov", "named": named, "forced": forced, "rows": lines, "mode": rng.choice([1, 2, 3]), "stream": "reader-override",
-            "hit": sorted(set(hit))}
+            "via": rng.choice(["lines", "lines", "path", "gz"]), "eol": rng.choice(["\n", "\r\n"]), "hit": sorted(set(hit))}
 
 
 def _run_readov(case):
@@ -65,8 +65,24 @@ def _run_readov(case):
     lines = hdr + ["\t".join(names)] + ["\t".join(r) for r in case["rows"]]
     mode = getattr(ValidationStringency, G.MODES[case["mode"]])
     out = {"raised": None, "exposed": [], "n": 0, "scheme_used": None}
+    path = None
     try:
-        rd = MafReader(lines=lines, validation_stringency=mode, scheme=forced)
+        if case.get("via", "lines") == "lines":
+            rd = MafReader(lines=lines, validation_stringency=mode, scheme=forced)
+        else:
+            import gzip
+            import os
+            import tempfile
+            fd, path = tempfile.mkstemp(suffix=".maf.gz" if case["via"] == "gz" else ".maf")
+            os.close(fd)
+            text = "".join(l + case.get("eol", "\n") for l in lines)
+            if case["via"] == "gz":
+                with gzip.open(path, "wt", newline="") as fh:
+                    fh.write(text)
+            else:
+                with open(path, "w", newline="") as fh:
+                    fh.write(text)
+            rd = MafReader.reader_from(path, validation_stringency=mode, scheme=forced)
         out["scheme_used"] = rd.scheme().annotation_spec() if rd.scheme() is not None else None
         for rec in rd:
             out["n"] += 1
@@ -78,6 +94,14 @@ def _run_readov(case):
         out["raised"] = "MafFormatException"
     except Exception as e:
         out["raised"] = type(e).__name__
+    finally:
+        if path is not None:
+            try:
+                rd.close()
+            except Exception:
+                pass
+            import os
+            os.unlink(path)
     return {"cmp": {"readov": True}, "extra": out}
 
 
@@ -290,7 +314,7 @@ def classify(case, obs):
     if case["kind"] == "hdredit":
         return "hdredit/%s/%s/prime=%s" % (case["to"], case["how"], case["prime"])
     if case["kind"] == "readov":
-        return "readov/%s->%s/mode=%s" % (case["named"], case["forced"], G.MODES[case["mode"]])
+        return "readov/%s/%s->%s/mode=%s" % (case.get("via", "lines"), case["named"], case["forced"], G.MODES[case["mode"]])
     return G.classify(case, obs)
 
 
